@@ -15,6 +15,9 @@ PROGRAMS = {
     "long": ("xor eax, eax\n" + "".join("add rax, 0x%x\n" % (k + 1) for k in range(40)) + "ret\n", True),
     # more than 6000 bytes of code: the library-managed buffer grows (and may move) before the code is run or written
     "huge": ("xor eax, eax\n" + "add rax, 1\n" * 1700 + "ret\n", True),
+    # a NUL byte inside the text: FILE and stdin must agree (the library's string ends there)
+    "nul": ("mov eax, 0x1\n\x00add rax, rbx\nret\n", False),
+    "nul2": ("mov eax, 0x1\nadd rax, \x00rbx\nadd rax, rcx\nret\n", False),
 }
 
 
@@ -203,7 +206,7 @@ def run(prop, tier, replay=None):
                 if f["src"] == "file":
                     r = subprocess.run(argv + [progfiles[prog]], stdin=subprocess.DEVNULL, capture_output=True, timeout=20, cwd=d)
                 else:
-                    r = subprocess.run(argv, input=text.encode(), capture_output=True, timeout=20, cwd=d)
+                    r = subprocess.run(argv, input=text.encode("latin-1"), capture_output=True, timeout=20, cwd=d)
                 exitc, out = r.returncode, r.stdout.decode("latin-1")
             except subprocess.TimeoutExpired:
                 exitc, out = 124, ""
